@@ -277,11 +277,17 @@ type Obligation struct {
 
 func (o *Obligation) Text(prelude string, models bool) string {
 	var b bytes.Buffer
+	// proved lemmas (after the marker) may mention datatypes declared in the function's header
+	axioms := ""
+	if i := strings.Index(prelude, axiomMarker); i >= 0 {
+		prelude, axioms = prelude[:i], prelude[i+len(axiomMarker):]
+	}
 	b.WriteString(prelude)
 	for _, h := range o.script.header {
 		b.WriteString(h)
 		b.WriteByte('\n')
 	}
+	b.WriteString(axioms)
 	// header entries may have been added after this obligation's prefix; they are declarations only
 	for _, c := range o.script.cmds[:o.prefix] {
 		b.WriteString(c)
@@ -300,6 +306,8 @@ func (o *Obligation) Text(prelude string, models bool) string {
 	}
 	return b.String()
 }
+
+const axiomMarker = "\n;;AXIOMS;;\n"
 
 type solverSpec struct {
 	name string
